@@ -458,10 +458,14 @@ async fn do_sync(n: usize, a: usize, w: &Rc<RefCell<World>>, replica: &mut Repli
         st.tasks.is_empty() && st.unsynced.is_empty() && st.base_version.is_nil() && st.working_set.iter().all(|x| x.is_none())
     };
     let ws_before = simstorage::read_store(&w.borrow().stores[n]);
+    let chain_len0 = w.borrow().server.borrow().chain.versions.len();
     let r = replica.sync(server, avoid).await;
     let faulted = fired_total() > f0;
     let mut wb = w.borrow_mut();
     wb.server.borrow_mut().sync_finished(n, r.is_ok());
+    if r.is_ok() && !faulted {
+        sent_is_pending(&mut wb, n, a, &ws_before, chain_len0, ev0);
+    }
     if r.is_ok() {
         let after = simstorage::read_store(&wb.stores[n]);
         ws_after_rebuild(&mut wb, n, &format!("action {a} sync"), false, &ws_before, &after);
@@ -533,6 +537,50 @@ async fn do_sync(n: usize, a: usize, w: &Rc<RefCell<World>>, replica: &mut Repli
     }
     wb.log(|| format!("n{n} a{a} sync avoid={avoid} -> {:?}", r.as_ref().map_err(|e| format!("{e:#}"))));
     r.is_ok()
+}
+
+fn sop_same(x: &SOp, y: &SOp) -> bool {
+    match (x, y) {
+        (SOp::Update { uuid: u1, property: p1, value: v1, ts: t1 }, SOp::Update { uuid: u2, property: p2, value: v2, ts: t2 }) => u1 == u2 && p1 == p2 && v1 == v2 && ts_key(t1) == ts_key(t2),
+        _ => x == y,
+    }
+}
+
+/// "Every version a replica sends [lists], in the order they were made, [the] Create, Delete and
+/// Update operations": what node `n` sent during one successful, fault-free sync is a subsequence
+/// (conflict losers drop out) of the operations it had pending when the sync began, and is the whole
+/// list when the sync received nothing from the server.
+fn sent_is_pending(wb: &mut World, n: usize, a: usize, before: &simstorage::StoreState, chain_len0: usize, ev0: usize) {
+    let sw = wb.server.clone();
+    let sw = sw.borrow();
+    let mut sent: Vec<SOp> = Vec::new();
+    for v in sw.chain.versions.iter().skip(chain_len0).filter(|v| v.origin == n) {
+        match &v.ops {
+            Some(o) => sent.extend(o.iter().cloned()),
+            None => return,
+        }
+    }
+    let received = sw.events[ev0..].iter().any(|e| match e {
+        SrvEvent::GetChild { node, found: Some(_), .. } => *node == n,
+        SrvEvent::GetSnapshot { node, found: Some(_) } => *node == n,
+        _ => false,
+    });
+    drop(sw);
+    let pending: Vec<SOp> = before.unsynced.iter().filter_map(op_to_sop).collect();
+    let mut k = 0;
+    for s in &sent {
+        while k < pending.len() && !sop_same(&pending[k], s) {
+            k += 1;
+        }
+        if k == pending.len() {
+            wb.violation("sent", "not-pending", format!("node {n} action {a}: the sync sent {s:?}, which is not among the operations pending before it (in their order): pending {:?}, sent {:?}", pending, sent));
+            return;
+        }
+        k += 1;
+    }
+    if !received && sent.len() != pending.len() {
+        wb.violation("sent", "incomplete", format!("node {n} action {a}: the sync received nothing from the server, yet it sent {} of the {} operations pending before it: pending {:?}, sent {:?}", sent.len(), pending.len(), pending, sent));
+    }
 }
 
 async fn do_undo(n: usize, a: usize, w: &Rc<RefCell<World>>, replica: &mut Replica<SimStorage>, then: Option<&[Intent]>) {
@@ -1768,6 +1816,7 @@ pub fn gen_c04(seed: u64, i: u64, thorough: bool) -> Value {
     let mut g = GenCfg { ghosts: true, tasks: 1 + rng.below(3) as u8, props: 1 + rng.below(3) as u8, ts_policy: rng.below(4) as u8, ts_counter: 0 };
     let big_run = rng.chance(1, if thorough { 40 } else { 120 });
     let v = rng.usize_below(nodes);
+    let statuses = rng.chance(1, 3);
     let mut scripts = Vec::new();
     for n in 0..nodes {
         let len = 1 + rng.usize_below(if big_run { 3 } else { 7 });
@@ -1775,12 +1824,15 @@ pub fn gen_c04(seed: u64, i: u64, thorough: bool) -> Value {
         for _ in 0..len {
             if rng.chance(4, 10) {
                 sc.push(Action::Sync { avoid: rng.chance(1, 2) });
+            } else if statuses && rng.chance(2, 3) {
+                // status changes, so that the working-set rebuild that ends a sync has work to do
+                sc.push(Action::Commit { ops: gen_status_intents(&mut rng, &mut g, 4) });
             } else {
                 sc.push(Action::Commit { ops: gen_intents(&mut rng, &mut g, 4, true) });
             }
         }
         if n == v && rng.chance(4, 5) {
-            let mut ops = gen_intents(&mut rng, &mut g, 4, false);
+            let mut ops = if statuses && rng.chance(1, 2) { gen_status_intents(&mut rng, &mut g, 4) } else { gen_intents(&mut rng, &mut g, 4, false) };
             if big_run {
                 let t = rng.below(g.tasks as u64) as u8;
                 ops.insert(0, Intent::Create { t });
